@@ -94,15 +94,19 @@ __CPROVER_ensures (!gh_early ==> (pl == NULL && gh_tok_live == 0 && gh_parse_liv
 
 /* ---- phase B: the error branch of yaep_parse (text copied by rule R3) ---- */
 void *gh_pl0;
-int unwind_parse_c (int code, int tok_init_p, int parse_init_p)
+int unwind_parse_c (int code, int tok_init_p, int parse_init_p, int saved_one_parse_p)
 __CPROVER_requires (grammar == gh_g && gh_g != NULL && gh_g->alloc != NULL)          /* harness supplies the object */
 __CPROVER_requires (gh_pl0 == pl)                                        /* harness: NULL or a live block (a list exists iff pl_create ran) */
 /* A3 + static fact S.flags: the flags equal the ghost counters at the jump */
 __CPROVER_requires ((tok_init_p != 0) == (gh_tok_live == 1) && (parse_init_p != 0) == (gh_parse_live == 1))
 __CPROVER_requires (gh_tok_live >= 0 && gh_tok_live <= 1 && gh_parse_live >= 0 && gh_parse_live <= 1)
-__CPROVER_assigns (pl, gh_tok_live, gh_parse_live, toks_vlo)
+__CPROVER_assigns (pl, gh_tok_live, gh_parse_live, toks_vlo, grammar->one_parse_p)
 __CPROVER_frees (pl)
 __CPROVER_ensures (__CPROVER_return_value == code)                        /* C15: the API call returns the recorded code */
+/* C14 / C15: a failing parse leaves the settings of the object as the caller made them - make_parse switches the one-parse flag off for the
+   time of its work under the cost flag, and an error exit from inside it skips its own restore (static fact S.oneparse.saved: the value
+   handed over here is the one read from the object before the setjmp test, held in a volatile local) */
+__CPROVER_ensures (grammar->one_parse_p == saved_one_parse_p)
 __CPROVER_ensures (pl == NULL && (gh_pl0 == NULL || __CPROVER_was_freed (gh_pl0)))   /* PLINV restored, list released once */
 __CPROVER_ensures (gh_tok_live == 0 && gh_parse_live == 0)               /* storage that was set up is finalised, nothing else */
 ;
@@ -158,8 +162,8 @@ static void world (void)
 }
 void h_unwind_parse (void)
 {
-  int code, t, p; world ();
-  verif_unwind_parse (code, t, p);
+  int code, t, p, o; world ();
+  verif_unwind_parse (code, t, p, o);
   if (gh_pl0 == NULL) VACUITY_CANARY_N ("no list"); else VACUITY_CANARY_N ("list released");
 }
 void h_pl_create (void)
